@@ -221,6 +221,9 @@ func checkLeak(lc *LeakCase, res *vprop.Result) {
 		if c.TopPtr {
 			res.Label("top:pointer")
 		}
+		if hasNonStringMap(&c.T) {
+			res.Label("map-with-non-string-key")
+		}
 	}
 	for e := range edgeSet {
 		res.Label("edge:" + e)
